@@ -378,6 +378,9 @@ impl<'a> World<'a> {
     }
     fn w_put(&mut self, page: &[u8], data: &pw::PageData, origin: &pw::Origin) {
         self.sim.set_insert(mk_pid(page), data, origin);
+        if let pw::Origin::Persisted(Some(n)) = origin {
+            self.next_bucket = self.next_bucket.max(n + 1);
+        }
         self.out.line(format!("wput {} {} {} {}", pid_str(&mk_pid(page)), origin_str(origin), data.elided, slots_str(data)), "ok".into());
     }
     fn w_set(&mut self) {
@@ -675,6 +678,9 @@ fn gen_universe(rng: &mut Rng) -> Vec<Key> {
         }
     }
     for _ in 0..rng.below(4) {
+        keys.push(rng.bytes32());
+    }
+    if keys.is_empty() {
         keys.push(rng.bytes32());
     }
     keys.sort();
@@ -1072,8 +1078,7 @@ fn run_freeform(out: &mut Sink, rng: &mut Rng, case: String) {
             }
         }
         w.w_conclude();
-        w.pending.clear();
-        // forget the reconstructed pages of this round
+        // the commit (also forgets the reconstructed pages of this round)
         if rng.chance(1, 2) {
             w.w_apply();
         }
@@ -1134,7 +1139,6 @@ fn run_directed(out: &mut Sink) {
         w.w_put(&[0], &p1, &pw::Origin::Persisted(Some(2)));
         w.store.insert(vec![], Stored { data: rootp, bucket: 1 });
         w.store.insert(vec![0], Stored { data: p1, bucket: 2 });
-        w.next_bucket = 3;
         w.w_new([0u8; 32], None);
         let ops = vec![(key("00000000"), val(1)), (key("00000001"), val(2))];
         w.w_rep(&[], &ops);
